@@ -1,3 +1,5 @@
+#[cfg(feature = "verif-hooks")]
+use crate::verif::fake_std as std;
 #[cfg(unix)]
 use std::os::unix::fs::OpenOptionsExt;
 use std::{
